@@ -15,17 +15,20 @@ func seq(fs ...func(*Ctx)) func(*Ctx) {
 // All maps property ids to their rule sets.
 var All = map[string]func(*Ctx){
 	"C01": seq(C01, (*Ctx).c12OTP, (*Ctx).c12Recovery),
-	"C02": seq(C02, (*Ctx).c12Recovery, (*Ctx).c12SMS),
+	"C02": seq(C02, (*Ctx).c12Recovery, (*Ctx).c12SMS, (*Ctx).c01Pending, func(c *Ctx) { c.beforeHandlersIssueNothing("C02.before-no-issue") }),
 	"C03": C03,
-	"C04": C04,
+	"C04": seq(C04, func(c *Ctx) { c.vetoOnlyAfterCheck("C04.veto-after-check") }),
 	"C05": C05,
 	"C06": C06,
-	"C07": C07,
+	"C07": seq(C07, func(c *Ctx) {
+		c.logoutClear("C07.logout-cookie", "C07.logout-cookie", true)
+		c.rememberRevokeWire("C07.revoke-wire", "C07.revoke")
+	}),
 	"C08": C08,
-	"C09": C09,
+	"C09": seq(C09, (*Ctx).flushDiscipline),
 	"C10": C10,
 	"C11": C11,
-	"C12": C12,
+	"C12": seq(C12, (*Ctx).smsInvariant),
 	"C13": C13,
 	"C14": C14,
 	"C15": C15,
